@@ -80,6 +80,8 @@ AFlip      == \E op \in {"flip_rows", "flip_cols"} : Do(op, NoArg, 0)
 ASortRow   == \E r \in Idx(R) : Do("sort_by_row", [row |-> r], 0)
 ASortCol   == \E c \in Idx(C) : Do("sort_by_col", [col |-> c], 0)
 AClone     == Do("clone", NoArg, 0)
+ACloneFrom == \E snc \in 0..MaxC, snr \in 0..MaxR : (snc = 0 <=> snr = 0) /\
+                 Do("clone_from", [nc |-> snc, nr |-> snr, items |-> Fresh(snc * snr)], snc * snr)
 AFromView  == \E sc \in Edge(C), sr \in Edge(R), ec \in Edge(C), er \in Edge(R) :
                  sc <= ec /\ sr <= er /\ ec <= C /\ er <= R /\
                  Do("from_view", [s |-> <<sc, sr>>, e |-> <<ec, er>>], 0)
@@ -126,6 +128,8 @@ FClone == /\ "clone" \in Faults
           /\ \/ \E k \in 0..Cells : DoFault("fill", [v |-> nextId], PanicAt("clone", k), <<nextId>>, 1)
              \/ \E k \in 0..Cells : DoFault("clone", NoArg, PanicAt("clone", k), << >>, 0)
              \/ \E k \in 0..Cells : DoFault("from_view", [s |-> <<0, 0>>, e |-> <<C, R>>], PanicAt("clone", k), << >>, 0)
+             \/ \E snc \in 0..MaxC, snr \in 0..MaxR : (snc = 0 <=> snr = 0) /\ \E k \in 0..(snc * snr), site \in {"clone", "drop"} :
+                   DoFault("clone_from", [nc |-> snc, nr |-> snr, items |-> Fresh(snc * snr)], PanicAt(site, k), Fresh(snc * snr), snc * snr)
              \/ \E nc \in 1..MaxC, nr \in 1..MaxR : \E k \in 0..(nc * nr) :
                    DoFault("init", [nc |-> nc, nr |-> nr, v |-> nextId], PanicAt("clone", k), <<nextId>>, 1)
 FDefault == /\ "default" \in Faults
@@ -157,7 +161,7 @@ Next == \/ CFromVec \/ CInit \/ CNew \/ CDefault \/ CWithCapacity
         \/ AInsertRow \/ APushRow \/ AInsertCol \/ APushCol
         \/ ARemoveRow \/ APopRow \/ ARemoveCol \/ APopCol \/ ADrain
         \/ AClear \/ ASwapDims \/ ACapacity \/ AShrink \/ AFill \/ ASet \/ ASwap \/ ASwapRows \/ ASwapCols
-        \/ ATranslate \/ AFlip \/ ASortRow \/ ASortCol \/ AClone \/ AFromView \/ AConsume
+        \/ ATranslate \/ AFlip \/ ASortRow \/ ASortCol \/ AClone \/ ACloneFrom \/ AFromView \/ AConsume
         \/ FaultNext
 
 Spec == Init /\ [][Next]_vars
